@@ -100,6 +100,9 @@ def run(F, R):
     byrole = {}
     for k, v in roles.items():
         byrole.setdefault(v, []).append(k)
+    # N13: what the driver notifies the device about has been made visible: the available index is published by a plain store (C02.O3)
+    from .C02 import publication_rule
+    guard(R, 'N13', 'publication', lambda: publication_rule(F, R, 'N13'))
     for need in ('add', 'should_notify', 'pop_used'):
         if need not in byrole:
             raise Undecided('queue API role %s not found' % need)
